@@ -1,4 +1,4 @@
-\* simulation centred on sharing: structural calls and pokes only
+\* simulation centred on sharing: the calls of C02 with arguments inside the block, pokes
 SPECIFICATION MCSpec
 CONSTANTS
   Handles = {0, 1, 2, 3}
@@ -15,7 +15,10 @@ CONSTANTS
   ObsLast = FALSE
   Rand = TRUE
   Letters = {0, 1, 2}
-  Ops = {"dup", "splice", "split", "merge", "append", "insert", "delete", "truncate", "resize", "prepend", "poke", "free", "alloc", "copy", "wmap"}
+  LastOps = {}
+  LastSz = {}
+  Dom = "in"
+  Ops = {"dup", "splice", "split", "merge", "append", "insert", "delete", "truncate", "resize", "poke", "free", "alloc", "copy", "wmap"}
 INVARIANT Emit
 CONSTRAINT Bounded
 CHECK_DEADLOCK FALSE
